@@ -21,7 +21,7 @@ META = {
     "bounds": {"quick": "tables of <= 4 rows in <= 3 batches of <= 2 rows (every pattern incl. empty batches); rolling window 1..3 "
                         "rows and 2..3 ticks (symbolic non-decreasing timestamps), ops sum/count/min/max/mean; "
                         "cumsum/cumprod/cummin/cummax; expanding sum/count/mean; ewm(com in {0,1,3}).mean",
-               "thorough": "tables of <= 5 rows in <= 4 batches of <= 2 rows"},
+               "thorough": "tables of <= 5 rows in <= 3 batches of <= 3 rows"},
     "outside": ["IEEE rounding", "rolling median/quantile/std/var/aggregate", "min_periods other than the pandas default"],
     "stubs": DC.STUBS,
     "assumptions": ["timestamps non-decreasing"],
@@ -133,7 +133,7 @@ def body(shard, *v):
 def obligations(tier):
     q = tier == "quick"
     B = 400 if q else 2000
-    pats = length_patterns(3, 2, 4) if q else length_patterns(4, 2, 5)
+    pats = length_patterns(3, 2, 4) if q else length_patterns(3, 3, 5)
     specs = []
     for n in (1, 2, 3):
         for o in ("sum", "count", "min", "max", "mean"):
